@@ -147,6 +147,47 @@ def run_tree(ctx, pt):
     ctx.eq('C12/skein%d/tree/%s' % (Nb, cls), r, ('ok', RS.skein(Nb, Nb, M, Yl=Yl, Yf=Yf, Ym=Ym)))
 
 
+def pts_levels(tier):
+    return [(Nb, k, j, keyed) for Nb in NBS for k in ((1, 2) if (Nb == 256 or tier == 'thorough') else (1,)) for j in (1, (1 << k) - 1) for keyed in (0, 1)
+            if not (j == 1 and k == 1 and False)]
+
+
+def run_levels(ctx, pt):
+    """level confusion: with Yl == Yf a level-2 node has the size of a leaf and node j sits at the offset of leaf j.  The
+    message is crafted (with the reference UBI) so that leaf j IS the input of level-2 node j - the concatenated chaining
+    values of leaves j*fan .. (j+1)*fan-1 - and only the tree level in the tweak tells the two compressions apart."""
+    import struct
+    Nb, k, j, keyed = pt
+    nb = Nb // 8
+    fan = 1 << k
+    Nl = nb << k
+    key = b'tree key' if keyed else None
+    Ym = 4
+    K = b'\0' * nb
+    if key:
+        K = RS.ubi(K, key, 'key')
+    C = b'SHA3' + struct.pack('<HHQ', 1, 0, Nb) + bytes([k, k, Ym]) + b'\0' * 13
+    G = RS.ubi(K, C, 'cfg')
+    nleaves = fan * fan
+    leaves = [expander(Nl, 40 + i) for i in range(nleaves)]
+    cv = lambda i: RS.ubi(G, leaves[i], 'msg', level=1, pos0=i * Nl)
+    leaves[j] = b''.join(cv(i) for i in range(j * fan, (j + 1) * fan))
+    if len(leaves[j]) != Nl or j * fan <= j:
+        raise InternalError('crafted leaf has the wrong size')
+    M = b''.join(leaves)
+    kw = dict(Yl=k, Yf=k, Ym=Ym)
+    if key:
+        kw['key'] = key
+    ctx.eq('C12/skein%d/tree/leaf-equal-to-a-node-of-the-next-level' % Nb, ctx.attempt(lambda: mk(Nb, Nb, **kw)(M)), ('ok', RS.skein(Nb, Nb, M, key=key, Yl=k, Yf=k, Ym=Ym)))
+    # the same relation across two calls on one object: first a message P of fan leaves, then a message whose leaf 0 is
+    # the input of P's level-2 node 0 (the chaining values of P's leaves)
+    o = mk(Nb, Nb, **kw)
+    P = [expander(Nl, 60 + i) for i in range(fan)]
+    ctx.eq('C12/skein%d/tree/message' % Nb, ctx.attempt(o, b''.join(P)), ('ok', RS.skein(Nb, Nb, b''.join(P), key=key, Yl=k, Yf=k, Ym=Ym)))
+    M2 = b''.join(RS.ubi(G, P[i], 'msg', level=1, pos0=i * Nl) for i in range(fan)) + expander(Nl + 1, 78)
+    ctx.eq('C12/skein%d/tree/message-starting-with-the-chaining-values-of-the-previous-message' % Nb, ctx.attempt(o, M2), ('ok', RS.skein(Nb, Nb, M2, key=key, Yl=k, Yf=k, Ym=Ym)))
+
+
 def pts_tweak(tier):
     return ['TreeLevel', 'Position', 'flags', 'Type']
 
@@ -222,6 +263,8 @@ def subchecks():
             bound='key in {absent, empty, 1 byte, one block, one block+1} x every subset of {prs,PK,kdf,nonce} x 2 messages'),
         Sub('tree', pts_tree, run_tree, engine='P',
             bound='Skein-256: (Yl,Yf) in {1,2,3}^2, Ym in {2,3,4} x |M| in {0,1,Nl-1,Nl,Nl+1,2Nl,4Nl+3, enough leaves to hit the Ym cap}; 3 shapes x 3 sizes for 512/1024 (thorough: all 27 shapes x 8 sizes); deep trees of 258 leaves with Ym in {8,9,255}'),
+        Sub('tree-level-confusion', pts_levels, run_levels, engine='P',
+            bound='3 state sizes x Yl=Yf in {1,2} x node j in {1, fan-1} x keyed/unkeyed: messages of fan^2 leaves in which leaf j equals the concatenated chaining values of leaves j*fan.. (the input of level-2 node j, at the same offset), and the same relation across two calls on one object'),
         Sub('tweak-fields', pts_tweak, run_tweak, engine='D', bound='Tweak record: TreeLevel 0..127, Position 2^k and 2^k-1 for k<96 (+= 32), all 8 flag combinations, all 8 types; written, read back, whole word compared'),
         Sub('ubi-positions', pts_ubi, run_ubi, engine='H',
             bound='UBI started at tweak position 2^32-Nb/8, 2^32-1, 2^64-Nb/8, 2^64-1, 2^95 with 1..3 blocks, and at 2^k-Nb/8 for every k in 8..95 with 2 blocks and 3 tail lengths vs the reference UBI started at the same position'),
